@@ -21,6 +21,8 @@ R20.len     at every dispatchTask(task, n) every array handed to the task is cov
 R20.wr      in VectorizedFunction/MemberFunction::apply the masked accessor of x is constructed only where
             any_masked(x) holds and the direct one only where it does not; results are accessed through Writable*Access,
             arguments through ReadOnly*Access; every normal return of apply passes through a dispatchTask
+R20.dispatch dispatchTask(task, length) runs the task over [0, length) exactly once on every path (pool dispatch xor inline
+            execute): run counts propagated over its control-flow skeleton
 R20.acc     (checks/c20ir.py, on the IR) element i of a Direct accessor is storage[i * stride], of a Masked accessor
             storage[indices[i] * stride] - what FixedArray::operator[] designates; accessor constructors take storage, stride and
             index table from the array and complete only on an array of their kind (writable ones only on a writable array)
@@ -597,7 +599,47 @@ def rule_unmasked(fx, out):
                         'on the branch %s the task %s indexes the argument with the position in the masked view; the argument has the unmasked length, so element k must be taken at raw_ptr_index(k)' % (C, e['cls']), e['loc']))
     return n
 
-RULES = [('range', rule_range_index), ('len', rule_len), ('wr', rule_wr), ('gil', rule_gil), ('shared', rule_shared), ('taskmembers', rule_taskmembers), ('regorder', rule_regorder), ('strcmp', rule_strcmp), ('ops', rule_ops), ('loops', rule_loops), ('unmasked', rule_unmasked)]
+def rule_dispatch(fx, out):
+    """dispatchTask(task, length) runs the task over [0, length) exactly once on every path: either it hands the whole range
+    to the installed pool (WorkerPool::dispatch(task, length)) or it executes it inline (task.execute(0, length, ...)) - never
+    neither (elements left uncomputed) and never both (an in-place operation applied twice).  Decided on the function's
+    control-flow skeleton: the set of possible numbers of runs is propagated along the edges; at the exit it must be {1}."""
+    n = 0
+    for f in fx.fns:
+        if f.name not in ('PyImath::dispatchTask',) and not (f.name.endswith('::dispatchTask_bad') or f.name.endswith('::dispatchTask_good')): continue
+        n += 1
+        runs = {}
+        bad = None
+        for e in f.events:
+            if e['k'] != 'call': continue
+            nm = e['name'].split('::')[-1]
+            if nm == 'dispatch' and 'WorkerPool' in e['name']:
+                if [a.replace(' ', '') for a in e.get('args', [])] != ['task', 'length']: bad = 'the pool is handed (%s), not (task, length)' % ', '.join(e.get('args', []))
+                runs[e['block']] = runs.get(e['block'], 0) + 1
+            elif nm == 'execute' and 'Task' in e['name']:
+                a = [x.replace(' ', '') for x in e.get('args', [])]
+                if a[:2] != ['0', 'length']: bad = 'the inline run covers (%s), not [0, length)' % ', '.join(e.get('args', []))
+                runs[e['block']] = runs.get(e['block'], 0) + 1
+        # forward propagation of the possible run counts (capped at 2)
+        cnt = {f.entry: {0}}; work = [f.entry]
+        while work:
+            b = work.pop()
+            blk = f.blocks.get(b)
+            if blk is None: continue
+            outc = set(min(2, c + runs.get(b, 0)) for c in cnt[b])
+            if blk.get('leave') in ('throw', 'noreturn'): continue
+            for s_ in blk['succ']:
+                if s_ is None or s_ < 0: continue
+                if not outc <= cnt.get(s_, set()):
+                    cnt[s_] = cnt.get(s_, set()) | outc; work.append(s_)
+        at_exit = cnt.get(f.exit, set())
+        if not bad and at_exit != {1}:
+            bad = ('on some path the task is run twice (handed to the pool and executed inline as well): an in-place operation is applied twice' if 2 in at_exit else
+                   'on some path the task is not run at all' if 0 in at_exit else 'no path reaches the exit')
+        out.append(('R20.dispatch', sname(f), VIOLATED if bad else HOLDS, bad or 'every path runs the task over [0, length) exactly once (pool dispatch or inline execute)', f['loc']))
+    return n
+
+RULES = [('dispatch', rule_dispatch), ('range', rule_range_index), ('len', rule_len), ('wr', rule_wr), ('gil', rule_gil), ('shared', rule_shared), ('taskmembers', rule_taskmembers), ('regorder', rule_regorder), ('strcmp', rule_strcmp), ('ops', rule_ops), ('loops', rule_loops), ('unmasked', rule_unmasked)]
 
 def main(rep, ws, tier):
     repo = build.REPO
@@ -607,7 +649,7 @@ def main(rep, ws, tier):
     for name, fnc in RULES: fnc(pos, pout)
     fired = set(r for r, oid, st, det, w in pout if st == VIOLATED)
     quiet = set(r for r, oid, st, det, w in pout if st == HOLDS)
-    need = {'R20.range', 'R20.index', 'R20.len', 'R20.gil', 'R20.shared'}
+    need = {'R20.range', 'R20.index', 'R20.len', 'R20.gil', 'R20.shared', 'R20.dispatch'}
     if need - fired: rep.fail_incomplete('positive examples (selftest/pyrules_pos.cpp) no longer fire for %s' % sorted(need - fired))
     if need - quiet: rep.fail_incomplete('negative examples (selftest/pyrules_pos.cpp) no longer pass for %s' % sorted(need - quiet))
     rep.extra['positive_examples'] = {'fired': sorted(fired), 'quiet': sorted(quiet)}
@@ -618,6 +660,7 @@ def main(rep, ws, tier):
     from . import c20ir
     nacc = c20ir.main_access(rep, ws)
     rep.floor('element accessor members (operator[] and constructors)', nacc, 9)
+    rep.floor('dispatchTask definitions', counts['dispatch'], 1)
     rep.floor('Task::execute overrides', counts['range'], 35)
     rep.floor('dispatchTask sites + length helpers', counts['len'], 60)
     rep.floor('vectorised apply functions', counts['wr'], 8)
